@@ -871,7 +871,7 @@ def SSI_mpe(
     if order == "find_min":
         # Find stable poles
         stable_poles = np.where(Lab == 1, Fn_pol, np.nan)
-        limits = [(f - rtol, f + rtol) for f in freq_ref]
+        limits = [(f - rtol * abs(f), f + rtol * abs(f)) for f in freq_ref]
 
         # Accumulate frequencies within the tolerance limits
         aggregated_poles = np.zeros_like(stable_poles)
